@@ -611,7 +611,9 @@ func handleInputStream(s *Session, handler Handler) (err error) {
 		}
 	}
 
-	iqOk := isIQ(start.Name)
+	// An IQ of the stream's own content namespace is an IQ too (a component's
+	// stream is qualified by neither of the two core namespaces).
+	iqOk := isIQ(start.Name) || (start.Name.Local == "iq" && start.Name.Space != "" && start.Name.Space == s.in.XMLNS)
 	_, _, id, typ := getIDTyp(start.Attr)
 
 	if typ == string(stanza.ResultIQ) || typ == "error" {
@@ -651,6 +653,7 @@ func handleInputStream(s *Session, handler Handler) (err error) {
 		},
 		TokenWriter: w,
 		id:          id,
+		ns:          s.in.XMLNS,
 	}
 	if err := handler.HandleXMPP(rw, &start); err != nil {
 		if err == io.EOF {
@@ -740,6 +743,7 @@ type responseChecker struct {
 	xml.TokenReader
 	xmlstream.TokenWriter
 	id        string
+	ns        string
 	wroteResp bool
 	level     int
 }
@@ -748,7 +752,7 @@ func (rw *responseChecker) EncodeToken(t xml.Token) error {
 	switch tok := t.(type) {
 	case xml.StartElement:
 		_, _, id, typ := getIDTyp(tok.Attr)
-		if rw.level < 1 && isIQEmptySpace(tok.Name) && id == rw.id && (typ == string(stanza.ResultIQ) || typ == string(stanza.ErrorIQ)) {
+		if rw.level < 1 && (isIQEmptySpace(tok.Name) || tok.Name.Local == "iq" && tok.Name.Space == rw.ns) && id == rw.id && (typ == string(stanza.ResultIQ) || typ == string(stanza.ErrorIQ)) {
 			rw.wroteResp = true
 		}
 		rw.level++
